@@ -432,5 +432,75 @@ func ruleRowCache(p *Prog, r *Result) {
 		r.add(bad == "" && len(users) > 0, "PutPlan|users|"+acc.Name(), p.Pos(acc.Pos()), firstNonEmpty(bad, fmt.Sprintf("only alias references use the per-row cache: %v", keysOf(users))))
 	}
 	r.note("loops_examined", nLoops)
+	// group rows: a function that stores an aggregate's result into the tree (FunctionCallExpr.Result) and then
+	// evaluates a field with a context evaluates one *group* per pass; the per-row cache must be emptied for
+	// each group - inside the outermost loop that contains the evaluation, or before it when there is no loop
+	for _, fn := range p.Funcs {
+		storesResult := false
+		allInstrs(fn, func(in ssa.Instruction) {
+			if st, ok := in.(*ssa.Store); ok {
+				if o, f, _, ok := fieldOfAddr(st.Addr); ok && o != nil && o.Obj().Name() == "FunctionCallExpr" && f == "Result" {
+					storesResult = true
+				}
+			}
+		})
+		if !storesResult {
+			continue
+		}
+		loops := naturalLoops(fn)
+		ord := 0
+		allInstrs(fn, func(in ssa.Instruction) {
+			ci, ok := in.(ssa.CallInstruction)
+			if !ok {
+				return
+			}
+			var ctx ssa.Value
+			for _, a := range ci.Common().Args {
+				if isCtx(a) && !isNilConst(a) {
+					ctx = a
+				}
+			}
+			if ctx == nil {
+				return
+			}
+			touching := false
+			for _, f := range p.Callees(ci) {
+				if T[f] {
+					touching = true
+				}
+			}
+			if !touching {
+				return
+			}
+			// the loop that steps from group to group: the largest loop around the evaluation that also advances
+			// the plan (stores into a field of the receiver); without one, the function handles one group per call
+			var outer *Loop
+			for _, L := range loops {
+				if !L.Body[in.Block()] {
+					continue
+				}
+				advances := false
+				for b := range L.Body {
+					for _, in2 := range b.Instrs {
+						if st, ok := in2.(*ssa.Store); ok {
+							if o, _, base, ok := fieldOfAddr(st.Addr); ok && o != nil && len(fn.Params) > 0 && base == ssa.Value(fn.Params[0]) {
+								advances = true
+							}
+						}
+					}
+				}
+				if advances && (outer == nil || len(L.Body) > len(outer.Body)) {
+					outer = L
+				}
+			}
+			var region map[*ssa.BasicBlock]bool
+			if outer != nil {
+				region = outer.Body
+			}
+			nCalls++
+			ord++
+			r.add(clearedBefore(fn, in, ctx, region), fmt.Sprintf("%s|group|%s#%d", p.FName(fn), callDesc(p, ci), ord), p.InstrPos(in), "the fields of a group are evaluated with a context emptied for that group (the per-row cache is keyed by field name: a count cached for the previous group would be reused)")
+		})
+	}
 	r.floor("calls handing loop-variant rows and a context to cache-touching code", nCalls, 4)
 }
